@@ -323,7 +323,7 @@ impl System {
                 }
             })
             .map_err(|e| e.to_string())?;
-        let watchdog = Duration::from_millis(std::env::var("VERIF_WATCHDOG_MS").ok().and_then(|s| s.parse().ok()).unwrap_or(5000));
+        let watchdog = Duration::from_millis(std::env::var("VERIF_WATCHDOG_MS").ok().and_then(|s| s.parse().ok()).unwrap_or(3000));
         let sys = System { ctl, client: Some(client_conn), loop_thread: Some(handle), watchdog, blocked: vec![] };
         if !sys.ctl.wait_settled(0, Duration::from_secs(20)) {
             return Err("loop thread did not reach its first idle point".into());
